@@ -148,8 +148,10 @@ class KeySpace(Subspace):
         labels_tab = [gbh.label_table(k, seed + j) for j, k in enumerate(kinds)]
         normtab = []
         for j, k in enumerate(kinds):
-            if k.split("_")[0] == "dt":
+            if k.split("_")[0] in ("dt", "td"):
                 normtab.append([int(v) * 10**9 for v in labels_tab[j]])
+            elif k == "str_S":
+                normtab.append([v.encode() for v in labels_tab[j]])
             else:
                 normtab.append(list(labels_tab[j]))
         keylab = []
@@ -342,6 +344,14 @@ def subspaces(tier, seed):
         sp.append(S(f"plain-{kk}-n1to{hk}", G, 1, hk, kinds=(kk,), seed=seed))
         if kk != "cat":
             sp.append(S(f"chunkwise-{kk}-n1to{hk}", G, 1, hk, kinds=(kk,), route="chunkwise", seed=seed))
+    # further key dtypes: narrow / unsigned ints, float32, timedeltas, tz-aware datetimes, fixed-width and
+    # byte strings, pandas' nullable (masked) ints / floats / booleans holding pd.NA
+    hx = 3 if q else 4
+    for kk in ("int_i4", "int_u1", "float_f4", "td_ns", "td_s", "dt_ns_tz", "str_U", "str_S", "int_I64",
+               "float_F64", "bool_na"):
+        G = 2 if kk.startswith("bool") else 3
+        sp.append(S(f"plain-{kk}-n1to{hx}", G, 1, hx, kinds=(kk,), seed=seed))
+        sp.append(S(f"chunkwise-{kk}-n1to{hx}", G, 1, hx, kinds=(kk,), route="chunkwise", seed=seed))
     if not q:
         sp.append(S("plain-float-G4-n1to6", 4, 1, 6, seed=seed))
         sp.append(S("chunkwise-float-n8", 3, 8, 8, route="chunkwise", sorts=(True,), seed=seed))
